@@ -849,13 +849,23 @@ func init() {
 		return []Val{ex.makeInterface(st, v, et)}
 	})
 	// ---- slices.Sort: afterwards adjacent elements are in non-decreasing order (permutation not modelled)
-	regEff("slices.Sort", "elements are permuted into non-decreasing order; only the adjacent-order fact is assumed", func(ex *Exec, a []Val, st *State, sig *types.Signature) []Val {
+	regEff("slices.Sort", "elements are permuted into non-decreasing order: the adjacent-order fact and that every element of the result is an element of the input are assumed (not that each occurs as often)", func(ex *Exec, a []Val, st *State, sig *types.Signature) []Val {
 		sl := a[0].(*Agg)
 		st0 := sig.Params().At(0).Type().Underlying().(*types.Slice)
+		pre := st.clone()
 		ex.havocElems(st, tm(sl.F[0]), st0.Elem())
 		if kindOf(st0.Elem()) == kLeaf {
 			j := BoundVar("sj", SInt)
 			off := tm(sl.F[1])
+			// every element of the result is an element of the input (Skolemised: position pi(j))
+			pi := Fresh("sortperm", SInt)
+			_ = pi
+			pj := BoundVar("sp", SInt)
+			src := UF("sortperm."+pi.Name, SInt, pj)
+			nw := st.heap.load(Elt(tm(sl.F[0]), pj), st0.Elem(), nil).(*Term)
+			od := pre.heap.load(Elt(tm(sl.F[0]), src), st0.Elem(), nil).(*Term)
+			ex.fact(st, Forall([]*Term{pj}, Implies(And(Le(off, pj), Lt(pj, Add(off, tm(sl.F[2])))),
+				And(Le(off, src), Lt(src, Add(off, tm(sl.F[2]))), Eq(nw, od)))))
 			x := st.heap.load(Elt(tm(sl.F[0]), j), st0.Elem(), nil).(*Term)
 			y := st.heap.load(Elt(tm(sl.F[0]), Add(j, IntT(1))), st0.Elem(), nil).(*Term)
 			var le *Term
